@@ -20,6 +20,8 @@
 //	import sc= name= key=                    wallet.ImportAccount
 //	rename sc= a= name=                      wallet.RenameAccount
 //	newacct sc= name=                        wallet.NextAccount
+//	importdry ... race=1 ra=<key.br.idx>     the dry run with a concurrent wallet.AddressInfo of that address (race.go)
+//	restart                                  the running wallet is stopped and opened again on its database
 //	lock / unlock [pass=<0..3>]              wallet.Lock / wallet.Unlock (no pass= : the passphrase a restarted wallet accepts)
 //	chpriv old=<0..3> new=<0..3>             wallet.ChangePrivatePassphrase
 //	chpub old=<0..2> new=<0..2>              wallet.ChangePublicPassphrase
@@ -1041,7 +1043,24 @@ func (r *runner) Exec(op string) (string, string) {
 		if _, ok := atoi(kv["name"]); sc < 0 || !ok || kv["key"] == "" {
 			return "bad-op", ""
 		}
-		if !r.opImport(&res, kind == "importdry", sc, kv["name"], kv["key"], kv["n"]) {
+		var raceAddr btcutil.Address
+		if v, has := kv["race"]; has {
+			if !is01(v) || (v == "1" && kind != "importdry") {
+				return "bad-op", ""
+			}
+			if v == "1" {
+				var d des
+				if n, _ := fmt.Sscanf(kv["ra"], "%d.%d.%d", &d.key, &d.br, &d.idx); n != 3 ||
+					kv["ra"] != fmt.Sprintf("%d.%d.%d", d.key, d.br, d.idx) {
+					return "bad-op", ""
+				}
+				d.sc = sc
+				if raceAddr = addrOf[d]; raceAddr == nil {
+					return "bad-op", ""
+				}
+			}
+		}
+		if !r.opImport(&res, kind == "importdry", sc, kv["name"], kv["key"], kv["n"], raceAddr) {
 			return "bad-op", ""
 		}
 	case "rename":
@@ -1065,6 +1084,19 @@ func (r *runner) Exec(op string) (string, string) {
 		if err == nil {
 			res.text = fmt.Sprintf("ok acct=%d", n)
 		}
+	case "restart":
+		// the process restarts: stop the running wallet, open it again on its database (locked, empty caches)
+		r.w.Stop()
+		r.w.WaitForShutdown()
+		w, err := wallet.OpenWithRetry(r.fdb, pubPassOf(r.prev.pub), nil, params, 0, 10*time.Millisecond)
+		if err != nil {
+			return "harness-error restart: " + err.Error(), ""
+		}
+		r.w = w
+		r.w.Start()
+		r.fc = newFakeChain()
+		r.w.SynchronizeRPC(r.fc)
+		res.text = "ok"
 	case "lock":
 		r.w.Lock()
 		res.text = "ok"
@@ -1522,7 +1554,7 @@ func (r *runner) opFundPsbt(res *opResult, sc, a int, coinSel string) bool {
 	return true
 }
 
-func (r *runner) opImport(res *opResult, dry bool, sc int, nameId, keyId, nStr string) bool {
+func (r *runner) opImport(res *opResult, dry bool, sc int, nameId, keyId, nStr string, raceAddr btcutil.Address) bool {
 	var key *hdkeychain.ExtendedKey
 	fp := uint32(0)
 	if keyId == "bad" {
@@ -1567,7 +1599,16 @@ func (r *runner) opImport(res *opResult, dry bool, sc int, nameId, keyId, nStr s
 	}
 	res.rolledBack = true
 	r.dryImports++
+	var rc *raceCtl
+	if raceAddr != nil {
+		rc = &raceCtl{addr: raceAddr, w: func(a btcutil.Address) error { _, err := r.w.AddressInfo(a); return err }}
+		r.fdb.setHook(rc.onPut)
+	}
 	p, ext, in, err := r.w.ImportAccountDryRun(nameStr(nameId), key, fp, &at, n)
+	if rc != nil {
+		r.fdb.setHook(nil)
+		_ = rc.finish()
+	}
 	if err != nil {
 		res.text = errClass(err)
 		return true
